@@ -56,6 +56,7 @@ type Spec struct {
 	Outside    []string          `json:"outside"`
 	ValidateN  int               `json:"validate_n"`
 	Solver     string            `json:"solver"`
+	OneShotS   int               `json:"oneshot_s"`
 	Vfs        string            `json:"vfs"` // harness package (rel dir) that gets the shared file-system model and owns the os.* replacements
 }
 
@@ -67,6 +68,8 @@ type RunCfg struct {
 	UnboundedChans  bool
 	MapOrderAny     bool
 	FifoChans       bool
+	Fallbacks       []string
+	OneShotS        int
 	MaxViolPerLabel int
 	SkipInit        map[string]bool
 	noopPkgs        []string
@@ -370,7 +373,7 @@ func mergeLimits(base Limits) Limits {
 		base.MaxDepth = 400
 	}
 	if base.QueryMs == 0 {
-		base.QueryMs = 20000
+		base.QueryMs = 5000 // incremental back end; hard queries go to the one-shot portfolio
 	}
 	if base.MaxConcretize == 0 {
 		base.MaxConcretize = 64
@@ -416,8 +419,7 @@ func explore(l *loaded, cfg *RunCfg, entry *ssa.Function, name string, workers i
 				mu.Unlock()
 				return
 			}
-			defer e.solver.Close()
-			defer e.arith.Close()
+			defer e.closeSolvers()
 			local := HarnessResult{Name: name, Reached: map[string]int{}, Funcs: map[string]bool{}}
 			e.res = &local
 			witness := map[string][]InputRec{}
@@ -761,6 +763,11 @@ func runCheck(specPath, tier, only string, workers int, noNative, trace bool) in
 		replFn: map[string]*ssa.Function{}, noReplInside: map[*ssa.Function]bool{}}
 	if cfg.MaxAlloc == 0 {
 		cfg.MaxAlloc = 4096
+	}
+	cfg.Fallbacks = []string{"z3-new", "cvc5", "z3"}
+	cfg.OneShotS = spec.OneShotS
+	if cfg.OneShotS == 0 {
+		cfg.OneShotS = 60
 	}
 	cfg.noopPkgs = append(append([]string{}, defaultNoop...), spec.NoopPkgs...)
 	for _, s := range spec.SkipInit {
